@@ -538,6 +538,7 @@ def rule_templates(ctx):
     HI = ("call", "natural::natural_head_interval", (P("$a"), IV, FR))
     for kind in ("basic", "choice"):
         v, b = ev(fx, "natural_%s_head" % kind, [P("$a"), IV])
+        v = ftpl.canon_iter(lift_returns(v))
         nf = ftpl.NF()
         if v[0] != "returns" or len(v[1]) != 2:
             ctx.add("TPL", "%s_head" % kind, False, ctx.site(b), "expected: plain conclusion when no fresh variable is needed, quantified implication otherwise")
@@ -550,9 +551,10 @@ def rule_templates(ctx):
             concl_p = ("or", (concl, NOT(concl)))
         else:
             concl_p = concl
-        ok1 = conds == ((("call", "Vec::is_empty", (FR,)), True),) and match(concl_p, nf.formula(ev_)) is not None
+        ok1 = len(conds) == 1 and conds[0][1] is True and conds[0][0][0] == "call" and conds[0][0][1].endswith("::is_empty") and conds[0][0][2] == (FR,) and \
+            match(concl_p, nf.formula(ev_)) is not None
         f = nf.formula(fv_)
-        qv = ("vars-of", nf.gen(("call", "Iterator::map", (FR, ("closure", ("v",), ("ctor", "Variable", (("name", ("param", "v")), ("sort", ("ctor", "Sort::Integer", ())))))))))
+        qv = ("var", ("at", nf.gen(FR)), "Integer")
         ok2 = match(("Q", "Forall", (qv,), IMP(("F", "natural::natural_head_interval", (nf.gen(P("$a")), nf.gen(IV), nf.gen(FR))), concl_p)), f) is not None
         ctx.add("TPL", "%s_head" % kind, ok1 and ok2 and t1 == {HA} and t2 == {HA}, ctx.site(b),
                 "%s head:  forall N..$i (intervals -> %s), or the bare conclusion when there is no interval; found %s" % (kind, "p(..) or not p(..)" if kind == "choice" else "p(..)", render(f)))
@@ -588,6 +590,28 @@ def rule_templates(ctx):
     ps = pushes(theory.get("formulas", ()))
     okp = len(ps) == 1 and ps[0][1] == ("proj", NR, (("Option::Some", "0"),))
     ctx.add("TPL", "program", bool(okn and okp), ctx.site(b), "natural(program) is the list of natural_rule results in order, and None as soon as one rule is refused")
+
+
+def lift_returns(t):
+    """constructor / call wrappers around a `returns` value are pushed into its branches: Some(returns(c -> x, else y)) = returns(c -> Some(x), else Some(y))"""
+    if not isinstance(t, tuple) or not t:
+        return t
+    if t[0] == "returns":
+        out = []
+        for conds, v in t[1]:
+            v2 = lift_returns(v)
+            if isinstance(v2, tuple) and v2 and v2[0] == "returns":
+                for c2, v3 in v2[1]:
+                    out.append((tuple(conds if conds != ("fallthrough",) else ()) + tuple(c2 if c2 != ("fallthrough",) else ()) or ("fallthrough",), v3))
+            else:
+                out.append((conds, v2))
+        return ("returns", tuple(out))
+    if t[0] == "ctor" and len(t[2]) == 1:
+        inner = lift_returns(t[2][0][1])
+        if isinstance(inner, tuple) and inner and inner[0] == "returns":
+            return ("returns", tuple((c, ("ctor", t[1], ((t[2][0][0], v),))) for c, v in inner[1]))
+        return ("ctor", t[1], ((t[2][0][0], inner),))
+    return t
 
 
 def resolve_expect(t):
